@@ -28,7 +28,7 @@ ASSUMPTIONS = [
     "path templates differing only by a trailing 's' are not generated (the statement is silent on the plural heuristic)",
 ]
 EXHAUSTIVE = False
-BOUNDS = {"trees_enum": "all trees of <=2 nodes (quick) / <=3 nodes (thorough) over the reduced universe of 32 nodes; parent in {none, any earlier}; linked in {all, none}"}
+BOUNDS = {"trees_enum": "all trees of <=2 nodes over the reduced universe (5 operations, ids {\"1\", \"12\", 1}, statuses {200,404,403,500}); all 3-node trees over the focus universe (one resource in both identifier spellings, nested order, statuses {200,404}); thorough adds all 3-node trees over the reduced universe with statuses {200,404,403}; parent in {none, any earlier}; linked in {all, none}"}
 
 
 def _param(name, loc="path"):
@@ -59,7 +59,7 @@ OPS = [
     ("delete", "/orders/{oid}", ("oid",)),
 ]
 HAS_QUERY = {("put", "/users/{id}")}
-IDS = ["1", "12"]
+IDS = ["1", "12", 1]  # the integer 1 and the string "1" are the same identifier on the wire
 STATUSES = [200, 404, 403, 500]
 STATUSES_THOROUGH = [200, 201, 204, 302, 400, 403, 404, 500, 503]
 
@@ -75,23 +75,35 @@ def _schema():
 
 
 def _mk_case(node):
+    """A real case for this node. Drawn once per (operation, identifiers, link kind) from the operation's strategy,
+    exactly as the state machine does; later uses are dataclass copies with a fresh case id (``__post_init__`` re-derives
+    the stored components, so a copy is indistinguishable from a fresh draw for the checks)."""
+    import dataclasses
+
+    from schemathesis.generation import generate_random_case_id
     from schemathesis.generation.hypothesis import examples
     from schemathesis.generation.overrides import store_components
 
-    op = _schema()[node["path"]][node["method"].upper()]
     pp = dict(node["pp"])
     linked = node["linked"] if node["parent"] is not None else "none"
-    key = (node["method"], node["path"], linked)
-    strategies = _state.setdefault("strategies", {})
-    kwargs = {}
-    if linked in ("all", "path") and pp:
-        kwargs["path_parameters"] = pp
-    if linked == "all" and (node["method"], node["path"]) in HAS_QUERY:
-        kwargs["query"] = {"q": "zz"}
-    case = examples.generate_one(op.as_strategy(**kwargs))
-    if pp and "path_parameters" not in kwargs:
-        # generated identifiers that happen to have these values: the case owns them, no override is visible
-        case.path_parameters = pp
+    key = repr((node["method"], node["path"], linked, sorted((k, type(v).__name__, v) for k, v in pp.items())))
+    pool = _state.setdefault("cases", {})
+    if key not in pool:
+        op = _schema()[node["path"]][node["method"].upper()]
+        kwargs = {}
+        if linked in ("all", "path") and pp:
+            kwargs["path_parameters"] = pp
+        if linked == "all" and (node["method"], node["path"]) in HAS_QUERY:
+            kwargs["query"] = {"q": "zz"}
+        case = examples.generate_one(op.as_strategy(**kwargs))
+        if pp and "path_parameters" not in kwargs:
+            # generated identifiers that happen to have these values: the case owns them, no override is visible
+            case.path_parameters = pp
+            case._components = store_components(case)
+        pool[key] = (case, "path_parameters" in kwargs)
+    template, explicit = pool[key]
+    case = dataclasses.replace(template, id=generate_random_case_id(), path_parameters=dict(template.path_parameters) if template.path_parameters else template.path_parameters)
+    if not explicit:
         case._components = store_components(case)
     return case
 
@@ -208,15 +220,26 @@ def _universe(ops, ids, statuses):
 
 
 REDUCED_OPS = [OPS[0], OPS[1], OPS[2], OPS[4], OPS[8]]
+FOCUS_OPS = [OPS[0], OPS[1], OPS[2], OPS[4], OPS[5]]
 
 
-def _reduced_universe():
+def _reduced_universe(statuses):
     out = []
-    for n in _universe(REDUCED_OPS, IDS, STATUSES):
-        if n["path"] == "/users/{id}/orders/{oid}" and n["pp"]["oid"] != "1":
+    for n in _universe(REDUCED_OPS, IDS, statuses):
+        if "oid" in n["pp"] and n["pp"]["oid"] != "1":
             continue
-        if n["path"] == "/orders/{oid}" and n["pp"]["oid"] != "1":
-            continue
+        out.append(n)
+    return out
+
+
+def _focus_universe():
+    """One resource (user 1 as "1" and as 1, order 7 below it), success / not-found only: deep rather than wide."""
+    out = []
+    for n in _universe(FOCUS_OPS, ["1", 1], [200, 404]):
+        if "oid" in n["pp"]:
+            if n["pp"]["oid"] != "1":
+                continue
+            n["pp"]["oid"] = "7"
         out.append(n)
     return out
 
@@ -228,36 +251,62 @@ def _links(i):
         yield p, "none"
 
 
-def enum_trees(tier, shard, nshards):
-    uni = _reduced_universe()
-    max_nodes = 2 if tier == "quick" else 3
-    count = 0
-    for k in range(1, max_nodes + 1):
-        for combo in itertools.product(uni, repeat=k):
+def _trees(universe, sizes):
+    for k in sizes:
+        for combo in itertools.product(universe, repeat=k):
             for links in itertools.product(*[list(_links(i)) for i in range(k)]):
-                count += 1
-                if count % nshards != shard:
-                    continue
-                yield [dict(n, parent=par, linked=lk) for n, (par, lk) in zip(combo, links)]
+                yield [dict(n, pp=dict(n["pp"]), parent=par, linked=lk) for n, (par, lk) in zip(combo, links)]
+
+
+def enum_trees(tier, shard, nshards):
+    if tier == "quick":
+        spaces = [(_reduced_universe(STATUSES), (1, 2)), (_focus_universe(), (3,))]
+    else:
+        spaces = [(_reduced_universe(STATUSES), (1, 2)), (_reduced_universe([200, 404, 403]), (3,)), (_focus_universe(), (3,))]
+    count = 0
+    for universe, sizes in spaces:
+        for tree in _trees(universe, sizes):
+            count += 1
+            if count % nshards == shard:
+                yield tree
 
 
 @st.composite
 def random_tree(draw):
-    statuses = STATUSES_THOROUGH
+    """Trees biased towards *related* nodes: a focus user/order whose identifiers most nodes reuse (in either spelling),
+    POSTs that mostly succeed, parents that are mostly earlier POSTs, parameters mostly link-provided."""
+    focus = {"id": draw(st.sampled_from(["1", "12"])), "oid": draw(st.sampled_from(["1", "12"]))}
     k = draw(st.integers(2, 8))
     nodes = []
     for i in range(k):
         m, p, names = draw(st.sampled_from(OPS))
-        n = {"method": m, "path": p, "pp": {name: draw(st.sampled_from(IDS)) for name in names}, "status": draw(st.sampled_from(statuses))}
-        n["parent"] = draw(st.one_of(st.none(), st.integers(0, i - 1))) if i else None
-        n["linked"] = draw(st.sampled_from(["all", "all", "none", "path"])) if n["parent"] is not None else "none"
+        pp = {}
+        for name in names:
+            if draw(st.integers(0, 4)) > 0:
+                v = focus[name]
+                pp[name] = int(v) if v == "1" and draw(st.booleans()) else v
+            else:
+                pp[name] = draw(st.sampled_from(IDS))
+        if m == "post":
+            status = draw(st.sampled_from([200, 201, 201, 302, 400, 500]))
+        elif m == "delete":
+            status = draw(st.sampled_from([200, 204, 204, 404, 403, 500]))
+        else:
+            status = draw(st.sampled_from(STATUSES_THOROUGH))
+        n = {"method": m, "path": p, "pp": pp, "status": status}
+        if i:
+            posts = [j for j, x in enumerate(nodes) if x["method"] == "post"]
+            n["parent"] = draw(st.one_of(st.none(), st.integers(0, i - 1), st.sampled_from(posts) if posts else st.integers(0, i - 1)))
+        else:
+            n["parent"] = None
+        n["linked"] = draw(st.sampled_from(["all", "all", "all", "none", "path"])) if n["parent"] is not None else "none"
         nodes.append(n)
     return nodes
 
 
 SUBS = [
-    Sub("trees_enum", fn=check_tree, enumerate=enum_trees, quick=(8, 0), thorough=(16, 0), exhaustive=True, timeout_quick=300, timeout_thorough=3000),
-    Sub("trees_rand", fn=check_tree, strategy=random_tree, quick=(8, 150), thorough=(16, 2500), timeout_quick=300, timeout_thorough=3000),
+    Sub("trees_enum", fn=check_tree, enumerate=enum_trees, quick=(16, 0), thorough=(16, 0), exhaustive=True, timeout_quick=300, timeout_thorough=3000),
+    Sub("trees_rand", fn=check_tree, strategy=random_tree, quick=(8, 1500), thorough=(16, 25000), timeout_quick=300, timeout_thorough=3000),
 ]
 FLOOR = {"trees_enum": 1000, "trees_rand": 1000}
 
